@@ -1,15 +1,15 @@
 CONSTANTS
     Shape <- Shape3
-    EpochOrderStrict = TRUE
-    CacheSound = TRUE
+    EpochOrderStrict = FALSE
+    CacheSound = FALSE
     MaxAlter = 1
     TamperFields = {"nextAvk"}
-    ForgeEpochs = {3, 4}
-    Forge2Pars = {"q"}
+    ForgeEpochs = {1, 2, 3, 4}
+    Forge2Pars = {"p"}
     ForgeKeys = {"A"}
-    ForgePars = {"q"}
+    ForgePars = {"p", "q"}
     ForgeNextAvk = {"A"}
-    ForgeNextPars = {"q"}
+    ForgeNextPars = {"p"}
     ForgeLevels = 2
     MaxAttempts = 2
     MaxJumps = 1
